@@ -29,6 +29,9 @@ func c08Body(kind string, atoms *AtomTable) []Stmt {
 	cmd := func() *Cmd { return &Cmd{Name: A(atoms.New(ClsPlainCmd, "cmd", ""))} }
 	flag := func() *Expr { return LeafFlag(atoms.New(ClsIdent, "flag", "")) }
 	switch kind {
+	case "goto":
+		// the whole body is one jump to a label outside the file
+		return []Stmt{&Cmd{Name: L("goto"), Args: [][]Tok{{A(atoms.New(ClsUserName, "ext", "names"))}}}}
 	case "cmd":
 		return []Stmt{cmd()}
 	case "end":
@@ -275,6 +278,69 @@ func enumMapEntries(maxLen int, maxRows int) [][]string {
 	return enumEntryLists(maxLen, kinds)
 }
 
+// c08TargetsInFileCase: plain entries and plain table rows whose targets are
+// a script and a user label defined in the same file.
+func c08TargetsInFileCase() *Case {
+	atoms := &AtomTable{Coded: true}
+	s1 := atoms.New(ClsUserName, "script", "names")
+	s2 := atoms.New(ClsUserName, "script", "names")
+	l1 := atoms.New(ClsUserName, "lbl", "names")
+	m := atoms.New(ClsUserName, "map", "names")
+	t1, t2, t3 := atoms.New(ClsIdent, "mstype", "mstypes"), atoms.New(ClsIdent, "mstype", "mstypes"), atoms.New(ClsIdent, "mstype", "mstypes")
+	v1, v2 := atoms.New(ClsIdent, "cond", ""), atoms.New(ClsIdent, "cond", "")
+	cmd := func() *Cmd { return &Cmd{Name: A(atoms.New(ClsPlainCmd, "cmd", ""))} }
+	ms := &MapScriptsTop{Name: m, Entries: []*MapEntry{
+		{Type: t1, Kind: "plain", Label: s2},
+		{Type: t2, Kind: "plain", Label: l1},
+		{Type: t3, Kind: "table", Rows: []*MapRow{
+			{Cond: []Tok{A(v1)}, Value: []Tok{L("1")}, Label: l1},
+			{Cond: []Tok{A(v2)}, Value: []Tok{L("2")}, Label: s2},
+		}},
+	}}
+	prog := &Program{Atoms: atoms, Tops: []interface{}{
+		&Script{Name: s1, Body: []Stmt{cmd(), &Label{Name: l1, Scope: "global"}, cmd()}},
+		ms,
+		&Script{Name: s2, Body: []Stmt{cmd()}},
+	}}
+	cs := &Case{Name: "c08/targets-defined-in-the-same-file", Prog: prog, Variants: optVariants, NonTrivial: true, Shape: c08Shape{Entries: []string{"plain->script", "plain->label", "table:p->label,p->script"}, Body: "n/a"}}
+	cs.Oracle = func(x *OracleCtx) *Violation {
+		for _, v := range x.Case.Variants {
+			res := x.Res[v.Name]
+			if res.Err.Panic != "" || res.Err.IsErr {
+				return &Violation{Sub: "accept", Msg: "variant " + v.Name + ": a map script may point at a script or label of the same file, but the program was rejected: " + interp.ToString(res.Err.Msg) + res.Err.Panic}
+			}
+			hdr, n := sectionAfterLabel(x, res.Out, m.Val)
+			if n != 1 || len(hdr) != 4 {
+				return &Violation{Sub: "header", Msg: fmt.Sprintf("variant %s: the mapscripts label is defined %d times and followed by %d lines, expected 4", v.Name, n, len(hdr))}
+			}
+			rest, ok := trimPrefixLit(hdr[2], "\tmap_script ")
+			_, tbl, ok2 := splitFirst(rest, ", ")
+			if !ok || !ok2 {
+				return &Violation{Sub: "header", Msg: "variant " + v.Name + ": third header line is " + interp.ToString(hdr[2])}
+			}
+			want := []interp.Value{cat("\tmap_script ", t1.Val, ", ", s2.Val), cat("\tmap_script ", t2.Val, ", ", l1.Val), cat("\tmap_script ", t3.Val, ", ", tbl), "\t.byte 0"}
+			if vv := expectLines(x, "header", "variant "+v.Name+": header", hdr, want); vv != nil {
+				return vv
+			}
+			rows, n := sectionAfterLabel(x, res.Out, tbl)
+			if n != 1 {
+				return &Violation{Sub: "table", Msg: fmt.Sprintf("variant %s: table label %s is defined %d times", v.Name, interp.ToString(tbl), n)}
+			}
+			wantRows := []interp.Value{cat("\tmap_script_2 ", v1.Val, ", 1, ", l1.Val), cat("\tmap_script_2 ", v2.Val, ", 2, ", s2.Val), "\t.2byte 0"}
+			if vv := expectLines(x, "table", "variant "+v.Name+": table", rows, wantRows); vv != nil {
+				return vv
+			}
+			for _, nm := range []interp.Value{s1.Val, s2.Val, l1.Val} {
+				if k := countLabelDefs(x.C, res.Out, nm); k != 1 {
+					return &Violation{Sub: "inline-script", Msg: fmt.Sprintf("variant %s: %s is defined %d times", v.Name, interp.ToString(nm), k)}
+				}
+			}
+		}
+		return nil
+	}
+	return cs
+}
+
 // RunC08 is the check of property C08.
 func RunC08(env *Env, rep *Report) {
 	maxLen, maxRows := 3, 2
@@ -282,18 +348,19 @@ func RunC08(env *Env, rep *Report) {
 		maxLen, maxRows = 4, 3
 	}
 	var cases []*Case
-	bodies := []string{"cmd", "end", "if", "while", "empty", "text", "moves"}
+	bodies := []string{"cmd", "end", "if", "while", "empty", "text", "moves", "goto"}
 	for i, l := range enumMapEntries(maxLen, maxRows) {
 		if len(l) == maxLen && env.Tier == "thorough" && i%3 != 0 {
 			continue
 		}
 		cases = append(cases, c08Case(l, bodies[i%len(bodies)]))
 	}
+	cases = append(cases, c08TargetsInFileCase())
 	for _, b := range bodies {
 		cases = append(cases, c08Case([]string{"inline", "table:i,p", "inline"}, b), c08Case([]string{"table:i,i", "table:p,i"}, b))
 	}
 	rep.Technique = "symbolic execution of the real mapscripts parser and emitter (go/ssa) with symbolic names; rope assertions on header and tables + SMT-discharged bisimulation of every inline script against its body as a script"
-	rep.Explanation = "Bounded symbolic verification, not a proof. Every mapscripts entry list up to the length bound over {plain, inline, table with up to the row bound of plain/inline rows} is compiled by symbolic execution of the real code with all type names, labels, table conditions and values symbolic, inline bodies rotating over {one command, command+end, if/else with end, while with conditional break, empty, a command with an inline text, a command with a moves() argument}. Asserted: the header label, the map_script lines of the plain and inline entries in source order followed by those of the tables in source order, '.byte 0'; for every table its label, its map_script_2 triples in source order and '.2byte 0'; every inline script (entry or table row) is defined exactly once under the label the header/row carries and is bisimilar (for every game state) to its body written as a script statement."
+	rep.Explanation = "Bounded symbolic verification, not a proof. Every mapscripts entry list up to the length bound over {plain, inline, table with up to the row bound of plain/inline rows} is compiled by symbolic execution of the real code with all type names, labels, table conditions and values symbolic, inline bodies rotating over {one command, command+end, if/else with end, while with conditional break, empty, a command with an inline text, a command with a moves() argument, a single goto}; plus one file whose plain entries and plain rows target a script and a (global) label defined in the same file. Asserted: the header label, the map_script lines of the plain and inline entries in source order followed by those of the tables in source order, '.byte 0'; for every table its label, its map_script_2 triples in source order and '.2byte 0'; every inline script (entry or table row) is defined exactly once under the label the header/row carries and is bisimilar (for every game state) to its body written as a script statement."
 	rep.Bounds = map[string]interface{}{"max_entries": maxLen, "max_rows_per_table": maxRows, "inline_bodies": bodies, "cases": len(cases)}
 	rep.Outside = []string{"longer entry lists / tables", "inline bodies beyond the listed kinds (inline text in inline map scripts is covered by C06, poryswitch by C12)", "two entries with the same type name"}
 	rep.Assumptions = []string{"type names are pairwise distinct generic identifiers", "assembly semantics of DESIGN.md §4.1 for the inline scripts"}
